@@ -11,8 +11,13 @@ fp4 = {}
 p4 = os.path.join(V, "seeded", "ROUND4_FIRSTPASS.json")
 if os.path.exists(p4):
     fp4 = json.load(open(p4))
+fpN = {3: fp3, 4: fp4}
+for n in range(5, 10):
+    pn = os.path.join(V, "seeded", f"ROUND{n}_FIRSTPASS.json")
+    if os.path.exists(pn):
+        fpN[n] = json.load(open(pn))
 def suite_of(rnd, name):
-    for base in ({1: "/tmp/seedval", 2: "/tmp/seedres2", 3: "/tmp/seedres3", 4: "/tmp/seedres4"}[rnd],):
+    for base in ({1: "/tmp/seedval"}.get(rnd, f"/tmp/seedres{rnd}"),):
         f = os.path.join(base, name + ".json")
         if os.path.exists(f):
             t = open(f).read()
@@ -37,7 +42,7 @@ for d in sorted(glob.glob(os.path.join(V, "seeded", "C*")) + glob.glob(os.path.j
         meta["history"] = ("round 2, first pass without hints: " + ("caught" if r.get("check_exit") == 1 else f"MISSED (exit {r.get('check_exit')})")
                            + ("; scenario class then added to the harness" if r.get("check_exit") != 1 else ""))
     else:
-        r = (fp3 if rnd == 3 else fp4).get(key, {})
+        r = fpN.get(rnd, {}).get(key, {})
         if r:
             meta["history"] = (f"round {rnd}, first pass without hints: " + ("caught" if r.get("check_exit") == 1 else f"MISSED (exit {r.get('check_exit')})")
                                + ("; scenario class then added to the harness" if r.get("check_exit") != 1 else ""))
